@@ -89,6 +89,13 @@ def _run_one(args):
         viol = [(i.rule, i.key, i.site) for i in stats['new_violations']]
         und = [(i.rule, i.key, i.site) for i in stats['undecided']]
         exp = v['expect']
+        if exp == 'SILENT':
+            # behaviour-preserving twin: the rules must stay silent and decided
+            if viol:
+                return (v['name'], 'false-alarm', viol[:3], '')
+            if und:
+                return (v['name'], 'undecided-on-benign', und[:3], '')
+            return (v['name'], 'fired', [('-', 'silent as expected', '')], '')
         exps = exp if isinstance(exp, (list, tuple)) else [exp]
         hit = [x for x in viol if any(x[0].startswith(e) for e in exps)]
         if hit:
